@@ -21,7 +21,7 @@ CLAIMED = {
                      'operation and by full-pool sweeps with a dict reference model; separate I/O-fault configuration '
                      '(EIO/ENOSPC/EACCES/short write inside a mutating call, one-shot or lasting until the call returns) for the file and compact '
                      'backends on SimFS; about one case in 200 is a three-phase history in three separately started interpreters; about one in eight is a '
-                     'concurrent-writers case (2-3 processes or threads with disjoint but colliding addresses under the scheduler). Payloads range up to 200 KB with sizes around 64 KiB / 128 KiB; bulk stores may name one address twice; about 4% of the compact histories run on bundles extended (sparsely) beyond 4 GiB.',
+                     'concurrent-writers case (2-3 processes or threads with disjoint but colliding addresses under the scheduler). The cache directory may lie behind a symbolic link. Payloads range up to 200 KB with sizes around 64 KiB / 128 KiB; bulk stores may name one address twice; about 4% of the compact histories run on bundles extended (sparsely) beyond 4 GiB.',
                 note='trusted: SimFS for file/compact backends; sqlite-based backends run on a real tmpfs directory outside the '
                      'simulator (sequential, fault-free only; a second connection waits 0.3 s of real time for a locked database); sampling of histories, not exhaustive',
                 technique='deterministic simulation: model-based history checking against a reference map on a simulated file system with I/O-fault injection'),
@@ -46,7 +46,7 @@ CLAIMED = {
                      'scheduled at file-system-call granularity (incl. 3-4 writers contending for one bundle with lock-retry timers '
                      'firing while the holder runs), checked at quiescence. Sequential histories also meet I/O errors (one-shot or sticky) inside '
                      'a store/remove - the bundle must stay structurally valid - and dry-run defragmentations that must not change a byte. A defragmentation may meet one failing open() (it may abort, it must not lose a tile). About one case in 100 '
-                     'extends a bundle beyond 4 GiB as a sparse file on tmpfs and validates it through mmap. The wall clock may step forward while concurrent writers work. In the threads mode a thread may also be switched between two statements of compact.py (line events). Cache directory names vary (also names containing the bundle extension).',
+                     'extends a bundle beyond 4 GiB as a sparse file on tmpfs and validates it through mmap. About one case in 70 fills 1-8 complete rows of a bundle before defragmenting. The wall clock may step forward while concurrent writers work. In the threads mode a thread may also be switched between two statements of compact.py (line events). Cache directory names vary (also names containing the bundle extension).',
                 note='trusted: the independent parser (checks/bundleparse.py), SimFS; histories and schedules are sampled',
                 technique='deterministic simulation: model-based history checking with an independent bundle parser; seeded schedule search for concurrent bundle writers'),
     'C15': dict(level='exploration', ref='DESIGN.md 6.8',
@@ -58,7 +58,7 @@ CLAIMED = {
                      'once, the call terminates; a second call on the same pool object is judged the same way. Call-site mode: 1-3 request '
                      'threads on one real TileManager each fan out 2-4 tile creations (TileCreator._create_threaded) with seeded failing '
                      'fetches: every caller gets its own tiles in input order, a failure reaches exactly the caller it belongs to. Pool re-use after a first call that the consumer abandoned at the first '
-                     'failing result (as the call sites do), with seeded garbage-collection points during the second call; busy processes (thousands of live threads), one refused thread start, nested fan-outs (up to 24 outer items); module-level semaphores/locks of async_ are scheduler-aware; the callable handed in is a function, a functools.partial, a callable object or a bound method.',
+                     'failing result (as the call sites do), with seeded garbage-collection points during the second call; busy processes (thousands of live threads), one refused thread start, nested fan-outs (up to 24 outer items); module-level semaphores/locks of async_ are scheduler-aware; failing items may all raise the same exception object; the callable handed in is a function, a functools.partial, a callable object or a bound method.',
                 note='trusted: SimQueue has queue.Queue semantics; pre-emption only at queue operations and explicit item steps',
                 technique='deterministic simulation: baton-passing scheduler adopting the pool\'s real worker threads, seeded completion-order search'),
     'C08': dict(level='exploration', ref='DESIGN.md 6.4',
@@ -70,7 +70,7 @@ CLAIMED = {
                      'and attributable to one fetch, final cache holds only correct in-grid tiles incl. every served tile '
                      '(API + raw walk), one fetch per meta tile, termination. A rare lock-identity case starts two fresh interpreters with '
                      'different hash seeds and compares the lock file names they derive for the same tiles and bundles. Backends include linked '
-                     'single-colour tiles (one shared file per colour, written without a tile lock of its own). Symlinked single-colour backends may run under a refresh rule with a colour file older than the rule. Threads may be switched between two statements of the tile-manager / cache code (line events). Worker processes may start together (each builds its cache when its first request runs). File-cache cases may carry a dimension value per client (judged per value). Backends also include mbtiles, per-level sqlite, geopackage and per-level geopackage caches: the SQLite calls are pre-emption points and busy waits run in simulated time, requests run inside cache sessions. With bulk_meta_tiles the source may have nothing (BlankImage) for some tiles of a meta tile: the others must still be stored once, without refetching.',
+                     'single-colour tiles (one shared file per colour, written without a tile lock of its own). One flock() on a tile lock may fail (ENOLCK/EIO). Symlinked single-colour backends may run under a refresh rule with a colour file older than the rule. Threads may be switched between two statements of the tile-manager / cache code (line events). Worker processes may start together (each builds its cache when its first request runs). File-cache cases may carry a dimension value per client (judged per value). Backends also include mbtiles, per-level sqlite, geopackage and per-level geopackage caches: the SQLite calls are pre-emption points and busy waits run in simulated time, requests run inside cache sessions. With bulk_meta_tiles the source may have nothing (BlankImage) for some tiles of a meta tile: the others must still be stored once, without refetching.',
                 note='trusted: stub source (TileManager-level runs) or simulated HTTP transport behind HTTPClient.open (about 20% of the '
                      'runs go through the full WSGI application built by the real loader: TMS/WMTS/KML/WMS-C/WMS GetMap), SimFS '
                      'flock/rename semantics, pre-emption at seam calls only',
@@ -102,7 +102,7 @@ CLAIMED = {
     'C12': dict(level='exploration', ref='DESIGN.md 6.6',
                 text='seeded cache contents (tiles stored at seeded simulated times, some in the same second; foreign objects: a '
                      'second cache, lock files, stray files) x one cleanup task (level list / range / open and zero-ended ranges / all; remove_all, remove_before as '
-                     'absolute time / relative age / file mtime, default; full extent, bbox (grid SRS or EPSG:4326), polygon or multi-part coverage; seeded fixed-offset local time zone and file time-stamp granularity; a deep variant places tiles around the bundle borders of levels 8/9 of a twelve-level pyramid; an earlier cleanup task of the same run may precede the task under test; directories may be older than their tiles; removals may take seconds; a temporary file may vanish while the cleanup walks its directory; tiles may be stored again before the cleanup; the cache may have a coverage of its own; another process may hold the write lock of a database file during the cleanup (a loud failure is accepted, a silent one is not); SQLite caches may run in WAL mode with connections kept open by another process (database files carry simulated time stamps); the clock of the cleanup may be behind the newest tiles; factor-2, sqrt2 and custom-resolution grids) built by the real '
+                     'absolute time / relative age / file mtime, default; full extent, bbox (grid SRS or EPSG:4326), polygon, multi-part or empty coverage; seeded fixed-offset local time zone and file time-stamp granularity; a deep variant places tiles around the bundle borders of levels 8/9 of a twelve-level pyramid; an earlier cleanup task of the same run may precede the task under test; directories may be older than their tiles; removals may take seconds; a temporary file may vanish while the cleanup walks its directory; tiles may be stored again before the cleanup; the cache may have a coverage of its own; another process may hold the write lock of a database file during the cleanup (a loud failure is accepted, a silent one is not); SQLite caches may run in WAL mode with connections kept open by another process (database files carry simulated time stamps); the clock of the cleanup may be behind the newest tiles; factor-2, sqrt2 and custom-resolution grids) built by the real '
                      'CleanupConfiguration and executed by the real cleanup() - all three strategies, with the real '
                      'TileCleanupWorker threads under the scheduler - on file (6 layouts, linked single-colour tiles, cache-level refresh_before), compact v1/v2 (SimFS), sqlite, mbtiles, '
                      'geopackage (tmpfs); oracle from recorded timestamps and independent geometry: must-remove / must-keep / '
